@@ -110,17 +110,25 @@ def phase(prop, tier, seed, report, specs, accept=None):
                 # a phase that stops early without saying why has explored less than it claims
                 raise HarnessError("Miri phase %s/%s ended with exit 0 after %d of %d plan x seed runs" % (spec["package"], spec["engine"], r["ok"], plans * nseeds))
             continue
-        if r["fails"]:
-            # an oracle of the engine itself failed under Miri
-            cls = r["fails"][0].split(" ")[3]
-            msg = r["fails"][0]
+        if r["error"] or not r["fails"]:
+            # what Miri itself objects to comes first: the run stopped there
+            cls = classify(r["error"] or "process failed")
+            msg = r["error"] or "process failed without a message"
+            own_fail = None
         else:
-            cls = classify(r["error"])
-            msg = r["error"]
+            # oracles of the engine itself failed under Miri: the first one this property owns
+            own_fail = None
+            for line in r["fails"]:
+                c = line.split(" ")[3]
+                if not accept or accept("miri", c, spec["engine"], line):
+                    own_fail = line
+                    break
+            cls = (own_fail or r["fails"][0]).split(" ")[3]
+            msg = own_fail or r["fails"][0]
         # an oracle of the engine that failed under Miri is attributed like any other run; what
         # Miri itself objects to (undefined behaviour inside the run) is always reported: a run
         # that Miri stops explores nothing after that point, so it must never pass silently
-        if r["fails"] and accept and not accept("miri", cls, spec["engine"], msg):
+        if r["fails"] and not r["error"] and own_fail is None:
             log("# engine %s reports %s under Miri, which belongs to another property; not reported here" % (spec["engine"], cls))
             continue
         where = narrow(spec, seed, 0, plans, miri_seeds) or {"run": 0, "run_to": plans, "miri_seed": None}
